@@ -167,8 +167,9 @@ E2ETapesFew == {<<>>, Mixed(64, 5, 11)}
 LoadE2E == /\ c.k = "init" /\ Family = "e2e"
            /\ \/ \E t \in { p \in FNPrograms(0) \cup MUPrograms(0) \cup PRPrograms(0) : ProgramOK(p) }, tp \in E2ETapes, off \in {0, 12, 24} :
                     c' = [k |-> "e2epick", tree |-> t, inp |-> <<>>, tape |-> tp, off |-> off]
-              \/ \E t \in { p \in CFPrograms(0) \cup (IF Tier = "quick" THEN {} ELSE ARPrograms(0)) : ProgramOK(p) },
-                    tp \in (IF Tier = "quick" THEN E2ETapesFew ELSE E2ETapes), off \in (IF Tier = "quick" THEN {0} ELSE {0, 12, 24}) :
+              \/ \E t \in { p \in CFPrograms(0) : ProgramOK(p) }, tp \in E2ETapesFew, off \in {0} :
+                    c' = [k |-> "e2epick", tree |-> t, inp |-> <<>>, tape |-> tp, off |-> off]
+              \/ \E t \in { p \in (IF Tier = "quick" THEN {} ELSE ARPrograms3(0)) : ProgramOK(p) }, tp \in E2ETapes, off \in {0, 12} :
                     c' = [k |-> "e2epick", tree |-> t, inp |-> <<>>, tape |-> tp, off |-> off]
               \/ \E cc \in E2EIO(0), tp \in E2ETapesFew : c' = [k |-> "e2epick", tree |-> cc.tree, inp |-> cc.inp, tape |-> tp, off |-> 0]
 ExpandE2E == c.k = "e2epick" /\ c' = E2ECase(c.tree, c.inp, c.tape, c.off)
